@@ -75,6 +75,7 @@ type World struct {
 	flushSizeBefore       int64
 	sawLowerPrioOverwrite map[string]bool
 	pendingGetRefs        int
+	depthObs              []depthObs
 	Aux                   *World // second store of the same process (C10)
 }
 
